@@ -80,7 +80,13 @@ def closing(img: NDArray[np.bool_], scale: nm, radius: nm) -> NDArray[np.bool_]:
     if radius < 0:
         out = ndi.binary_opening(img, structure=structure, border_value=False)
     elif radius > 0:
-        out = ndi.binary_closing(img, structure=structure, border_value=False)
+        # NOTE: ndi.binary_closing erodes with the same border value as it dilates, which
+        # removes the voxels near the image border (closing must not shrink the object).
+        out = ndi.binary_erosion(
+            ndi.binary_dilation(img, structure=structure, border_value=False),
+            structure=structure,
+            border_value=True,
+        )
     return out  # type: ignore
 
 
